@@ -37,6 +37,8 @@ pub uninterp spec fn lit_view(t: &Literal) -> Tok;
 pub uninterp spec fn id_view(t: &Ident) -> Seq<char>;
 
 pub assume_specification[ Span::call_site ]() -> Span;
+pub assume_specification[ TokenStream::is_empty ](t: &TokenStream) -> (r: bool)
+    ensures r == (ts_view(t).len() == 0);
 pub assume_specification[ Ident::new ](s: &str, span: Span) -> (r: Ident)
     ensures id_view(&r) == s@;
 pub assume_specification[ Literal::usize_unsuffixed ](n: usize) -> (r: Literal)
